@@ -1,9 +1,163 @@
 import LinfaSpec.Model.Proto
+import LinfaSpec.Model.Dataset
 
 namespace LinfaSpec.Drv.C02
-open LinfaSpec.Proto
+open LinfaSpec.Proto LinfaSpec.Dataset
 
-/-- stub: replaced when the property's model lands -/
-def handle (_toks : List String) : String := "bad-op"
+/-- datasets of the correspondence: record cells and weights are identity tags
+(`Nat`), labels travel as their codes (`Nat`) -/
+abbrev D := DS Nat Nat Nat
+
+def sortCounts (m : List (Nat × Nat)) : List (Nat × Nat) :=
+  (m.toArray.qsort (fun a b => a.1 < b.1)).toList
+
+def showNames (l : List String) : String := if l.isEmpty then "-" else ",".intercalate l
+def showRows (r : List (List Nat)) : String := if r.isEmpty then "-" else showList2 toString r
+
+def showCounts : Option (List (List (Nat × Nat))) → String
+  | none => "x"
+  | some cs => if cs.isEmpty then "-" else
+    ";".intercalate (cs.map fun m => if m.isEmpty then "-" else
+      ",".intercalate ((sortCounts m).map fun (l, c) => s!"{l}*{c}"))
+
+def showDS (d : D) : String :=
+  s!"{d.recs.length}x{d.p}x{d.t}x{if d.ix1 then 1 else 0}[R:{showRows d.recs}][T:{showRows d.tgts}]" ++
+  s!"[W:{if d.weights.isEmpty then "-" else showList toString d.weights}][F:{showNames d.fnames}]" ++
+  s!"[N:{showNames d.tnames}][C:{showCounts d.counts}]"
+
+def ofBool (b : Bool) : Nat := if b then 1 else 0
+
+/-- initial tagged dataset: record cell `(id, j)` = `id*8 + j`, weight of `id` = `1000 + id`,
+feature names `f<j>`, target names `t<c>` -/
+def initDS (n p t : Nat) (ix1 w fn tn cnt : Bool) (y : List (List Nat)) : D :=
+  { p := p, t := t, ix1 := ix1,
+    recs := (List.range n).map fun id => (List.range p).map fun j => id * 8 + j,
+    tgts := y,
+    weights := if w then (List.range n).map (1000 + ·) else [],
+    fnames := if fn then (List.range p).map (s!"f{·}") else [],
+    tnames := if tn then (List.range t).map (s!"t{·}") else [],
+    counts := if cnt then some (labelCount t y) else none }
+
+/-- one-vs-all output with its boolean labels written as codes 0/1 -/
+def boolDS (d : DS Nat Bool Nat) : D :=
+  { mapTargets ofBool d with
+    counts := d.counts.map fun (cs : List (List (Bool × Nat))) =>
+      cs.map fun m => m.map fun (bc : Bool × Nat) => (ofBool bc.1, bc.2) }
+
+def argBool (f : List String) (k : String) : Option Bool :=
+  match argNat f k with
+  | some 0 => some false
+  | some 1 => some true
+  | _ => none
+
+/-- one step: the response text of the step and the datasets it returned -/
+def step (name : String) (f : List String) (ds : D) : Option (Option (String × List D)) := do
+  let dump := fun (outs : List D) => "+".intercalate (outs.map showDS)
+  let wrap := fun (r : Option (List D)) => match r with
+    | none => (none : Option (String × List D))
+    | some outs => some (dump outs, outs)
+  match name with
+  | "splitV" =>
+    let r ← (arg f "r").bind parseF32
+    pure (wrap ((splitView (ceilRatio ds.n r) ds).map fun (a, b) => [a, b]))
+  | "splitO" =>
+    let r ← (arg f "r").bind parseF32
+    if ds.counted then none
+    else pure (wrap ((splitOwned (ceilRatio ds.n r) ds).map fun (a, b) => [a, b]))
+  | "shuffle" =>
+    let idx ← argNats f "idx"
+    pure (wrap ((shuffle idx ds).map ([·])))
+  | "boot" =>
+    let ns ← argNat f "ns"; let nf ← argNat f "nf"
+    let idx ← argNats f "idx"; let fidx ← argNats f "fidx"
+    -- the index vectors are read back from the implementation's result; when the call
+    -- panicked there are none, and the model must say "panic" without them
+    match bootstrap ns nf idx fidx ds with
+    | none => pure none
+    | some d => if idx.length = ns ∧ fidx.length = nf then pure (wrap (some [d])) else none
+  | "bootS" =>
+    let ns ← argNat f "ns"; let idx ← argNats f "idx"
+    match bootstrapSamples ns idx ds with
+    | none => pure none
+    | some d => if idx.length = ns then pure (wrap (some [d])) else none
+  | "bootF" =>
+    let nf ← argNat f "nf"; let fidx ← argNats f "fidx"
+    match bootstrapFeatures nf fidx ds with
+    | none => pure none
+    | some d => if fidx.length = nf then pure (wrap (some [d])) else none
+  | "withLabels" =>
+    let labs ← argNats f "labs"
+    pure (wrap ((withLabels labs ds).map ([·])))
+  | "oneVsAll" =>
+    if !ds.ix1 then none
+    else
+      let outs := (oneVsAll ds).map fun (l, d) =>
+        (l, boolDS d)
+      let sorted := (outs.toArray.qsort (fun a b => a.1 < b.1)).toList
+      pure (some ("+".intercalate (sorted.map fun (l, d) => s!"{l}>{showDS d}"), sorted.map (·.2)))
+  | "map" =>
+    let tab ← argNats f "tab"
+    pure (wrap (some [mapTargets (fun c => tab.getD c c) ds]))
+  | "view" => pure (wrap (some [view ds]))
+  | "toOwned" => pure (wrap (some [toOwned ds]))
+  | "intoSingle" => if ds.ix1 ∨ ds.counted then none else pure (wrap ((intoSingleTarget ds).map ([·])))
+  | "sampleIter" =>
+    match sampleIter ds with
+    | none => pure none
+    | some prs =>
+      let s := if prs.isEmpty then "-" else
+        ";".intercalate (prs.map fun (r, g) => s!"{showList toString r}>{showList toString g}")
+      pure (some (s, [ds]))
+  | "featureIter" => pure (wrap (featureIter ds))
+  | "targetIter" => pure (wrap (targetIter ds))
+  | "chunks" =>
+    let size ← argNat f "size"
+    pure (wrap (sampleChunks size ds))
+  | _ => none
+
+/-- runs the steps; the response lists every step's outputs; a panic ends the history -/
+def runSteps : List String → D → List String → Option (List String)
+  | [], _, acc => some acc.reverse
+  | tok :: rest, ds, acc =>
+    match tok.splitOn ":" with
+    | [] => none
+    | name :: f =>
+      match step name f ds with
+      | none => none
+      | some none => some ((s!"{name}:panic") :: acc).reverse
+      | some (some (txt, outs)) =>
+        match argNat f "pick" with
+        | none => none
+        | some k =>
+          let acc := s!"{name}:{txt}" :: acc
+          match outs[k]? with
+          | none => if rest.isEmpty ∧ outs.isEmpty then some acc.reverse else none
+          | some d => runSteps rest d acc
+
+def handleSeq (toks : List String) : Option String := do
+  let n ← argNat toks "n"; let p ← argNat toks "p"; let t ← argNat toks "t"
+  let ix1 ← argBool toks "ix1"; let w ← argBool toks "w"; let fn ← argBool toks "fn"
+  let tn ← argBool toks "tn"; let cnt ← argBool toks "cnt"
+  let y ← argNats2 toks "y"
+  let ops ← arg toks "ops"
+  if y.length ≠ n ∨ y.any (·.length ≠ t) ∨ (ix1 ∧ t ≠ 1) then none
+  else
+    let ds := initDS n p t ix1 w fn tn cnt y
+    let outs ← runSteps (splitOn' ops "/") ds []
+    pure ("ok init:" ++ showDS ds ++ (if outs.isEmpty then "" else " " ++ " ".intercalate outs))
+
+/-- `ceil n=<n> r=<f32 bits>`: the split point -/
+def handleCeil (toks : List String) : Option String := do
+  let n ← argNat toks "n"
+  let r ← (arg toks "r").bind parseF32
+  -- `split_at` panics when the split point lies beyond the last sample
+  pure (if ceilRatio n r ≤ n then s!"ok {ceilRatio n r}" else "panic")
+
+def handle (toks : List String) : String :=
+  let r := match toks with
+    | "seq" :: rest => handleSeq rest
+    | "ceil" :: rest => handleCeil rest
+    | _ => none
+  r.getD "bad-op"
 
 end LinfaSpec.Drv.C02
